@@ -1,6 +1,8 @@
 (* Props/C03.v -- C03: 6502 instructions assemble to the MOS encoding with the right addressing mode. *)
 From Az65 Require Import Base Token Expr ExprParse Linker Asm Arch ArchTables LinkerFacts ArchSpec Isa6502 Mos6502Facts.
 From Az65 Require Import LinkerFacts LinkGenFacts.
+From Az65 Require Import IsaGenCommon IsaGenMos.
+From Az65.Gen Require Import IsaLits.
 
 (* (1) every row, for all operand bytes: the MOS opcode of that mnemonic and addressing mode followed
        by the operand in little-endian order, nothing else *)
@@ -55,3 +57,10 @@ Theorem C03_generated_link_arms :
     Linker.apply_link st l d = gen_apply_link (Linker.l_kind l) (Linker.l_off l) v d.
 Proof. exact generated_link_arms_are_model_arms. Qed.
 Print Assumptions C03_generated_link_arms.
+
+(* TRANSLATOR TIE for the opcode bytes: mnemonic by mnemonic, the rows of the model's instruction table place exactly the
+   opcode bytes that the corresponding arm of the Rust parser -- re-read from the source on every run (Gen/IsaLits.v) --
+   pushes, maps to or patches in.  (Which bytes go with which operand pattern is tied by the row-by-row correspondence.) *)
+Theorem C03_rows_use_the_source_opcode_bytes : lits_agree mos_rows mos_op_lits = true.
+Proof. exact mos_rows_use_the_source_opcode_bytes. Qed.
+Print Assumptions C03_rows_use_the_source_opcode_bytes.
